@@ -52,6 +52,10 @@ REWRITES = [
      "crate-internal module paths flattened (single-file Verus): lm_ots::signing::X -> X"),
     ("R16-clone", re.compile(r"((?:\(\*[A-Za-z_][\w\.]*\.idx\((?:[^()]|\([^()]*\))*\)\)|[A-Za-z_][\w]*)(?:\.[A-Za-z_]\w*)*)\.clone\(\)"),
      r"clone_of(&\1)", "E.clone() on a value of a derive(Clone) plain-data struct -> clone_of(&E): derived Clone = field-wise copy (assumed: r == *E)"),
+    ("R17-map-err", re.compile(r"\.map_err\(\|_\|\s*Error::new\(\)\)"), r".map_err(|_e: ()| -> (o: Error) { Error::new() })",
+     ".map_err(|_| Error::new()) on a Result<_, ()> -> closure with an explicit parameter type and named result (Verus closure syntax)"),
+    ("R18-ok-or-else", re.compile(r"\.ok_or_else\(Error::new\)"), r".ok_or(Error::new())",
+     ".ok_or_else(Error::new) -> .ok_or(Error::new()) (Error::new() is a constant unit-like value)"),
     ("R5", re.compile(r"H::OUTPUT_SIZE\.into\(\)"), r"(H::OUTPUT_SIZE as usize)", "H::OUTPUT_SIZE.into() -> H::OUTPUT_SIZE as usize (lossless widening)"),
 ]
 
